@@ -5,6 +5,12 @@
    tables are third-party), FilepathStem (filepath.go:18) and IsZipWithContext (:506-535, extension test).
    Definitions only; proofs are in PathLemmas.v / Proofs.v.
 
+   Entry kinds: archive/zip reports a directory for a trailing '/' or the directory bit of the mode (KDir); every other
+   kind the mode bits can carry (symbolic link with its target as content, named pipe, socket, device, setuid/setgid/sticky)
+   is extracted by unzipZippedFile through OpenFile/write as a REGULAR file (KFile) - no link is ever created, which is what
+   makes the lexical containment theorems meaningful physically (see within_physical in Props.v; the harness checks the
+   physical side on the OS back end).
+
    Two shapes of the ".." test are modelled, selected by [cv]:
      cv = false : strings.Contains(destPath, "..") and nested destination = Join(Dir(p), Stem(p))   (tree without the C07 fix)
      cv = true  : element test (no element equal to "..") and nested destination = sanitise(Stem(p), Dir(p))  (C07 fix D9)
